@@ -28,6 +28,7 @@ impl System {
         snapshot_types: Vec<SystemSnapshotType>,
     ) -> Result<Snapshot, IggyError> {
         self.ensure_authenticated(session)?;
+        self.permissioner.get_stats(session.get_user_id())?;
 
         let snapshot_types = if snapshot_types.contains(&SystemSnapshotType::All) {
             if snapshot_types.len() > 1 {
